@@ -229,9 +229,11 @@ func c18GenContent(r *v.Rand) protocol.Content {
 
 		return m
 	default:
-		return vhs.GenHandshake(r)
+		return c18GenContentHandshake(r)
 	}
 }
+
+func c18GenContentHandshake(r *v.Rand) protocol.Content { return vhs.GenHandshake(r) }
 
 // RecordLayer.Marshal / Unmarshal (DTLS 1.2 record): ctx = [cidLen of the pre-set ConnectionID].
 func c18RecordCodec(cidLen int) *v.Codec {
@@ -286,12 +288,18 @@ func c18RecordCodec(cidLen int) *v.Codec {
 }
 
 // TestVerifC18Record: legacy/CID record header (1), inner plaintext (8), datagram unpackers (9),
-// RecordLayer (10).
+// RecordLayer (10), DTLS 1.3 unified header (20), ciphertext (21) and plaintext (22) records,
+// UnpackDatagram13 (23).
 func TestVerifC18Record(t *testing.T) {
 	v.Run(t, []*v.Codec{
 		c18HeaderCodec(0), c18HeaderCodec(4), c18HeaderCodec(8),
 		c18InnerCodec(),
 		c18UnpackCodec(false, 0), c18UnpackCodec(true, 0), c18UnpackCodec(true, 4), c18UnpackCodec(true, 8),
 		c18RecordCodec(0), c18RecordCodec(4),
+		c18UnifiedCodec(0), c18UnifiedCodec(3),
+		c18Ciphertext13Codec(0), c18Ciphertext13Codec(3),
+		c18Plaintext13Codec(),
+		c18Unpack13Codec(0, false, true), c18Unpack13Codec(0, false, false), c18Unpack13Codec(1, true, true),
+		c18Unpack13Codec(3, false, true), c18Unpack13Codec(3, true, true),
 	})
 }
